@@ -49,6 +49,10 @@ void nmc_enumerate(const nmc::Tier& t, const nmc::Sink& emit) {
     for (long ta = 0; ta < 5; ta++) for (long tb = 0; tb < 5; tb++) for (long form = 0; form < 2; form++)
         for (long i = 0; i < mix_grid_size(ta); i++) for (long j = 0; j < mix_grid_size(tb); j++) for (long e = 0; e < 3; e++)
             emit(Case("closemix", {{ta, tb}, {form}, {i, j}, {e}}));
+    // isclose over wrapped operands with an EXPLICIT tolerance: form (0 maybe<double>, 1 either<none,double> right alternatives, 2 either<double,none> left alternatives,
+    // 3 tuple<double,double>, 4 maybe<ndarray>, 5 either<int-list,double-array> right alternatives) x (difference, eps) pairs on either side of the tolerance and on either
+    // side of the DEFAULT 1e-6 (a recursive call that forgets to forward eps compares with the default; seeded change m18c)
+    for (long form = 0; form < 6; form++) for (long pr = 0; pr < 6; pr++) emit(Case("closewrap", {{form}, {pr}}));
     // ndarray operand vs maybe<ndarray>
     for (auto& a : S) for (auto& b : S) { if (a.size() > 2 || b.size() > 2) continue; emit(Case("nd_maybe", {a, b, {0}})); emit(Case("nd_maybe", {a, b, {1}})); }
 }
@@ -148,6 +152,24 @@ Outcome nmc_execute(const Case& c) {
         bool want = c.a[2][0] && ra.shape == rb.shape;
         int got = eq(a, mb), rev = eq(mb, a);
         return decide("isequal(ndarray,maybe<ndarray>)", got, rev, want, true, nmc::hash_vec(c.a[0]) ^ nmc::mix(nmc::hash_vec(c.a[1])) ^ (uint64_t)c.a[2][0]);
+    }
+    if (c.op == "closewrap") {
+        static const double DELTA[6] = {0.5, 0.5, 1e-8, 1e-8, 0.0, 3e-7}, EPS[6] = {1.0, 0.25, 1e-9, 1e-6, 1e-9, 1e-7};
+        long form = c.a[0][0], pr = c.a[1][0]; const double delta = DELTA[pr], eps = EPS[pr]; const bool want = delta < eps;
+        const double x = 1.0, y = 1.0 + delta;
+        int got = -1, rev = -1;
+        auto both_ways = [&](const auto& a, const auto& b) { got = utils::isclose(a, b, eps) ? 1 : 0; rev = utils::isclose(b, a, eps) ? 1 : 0; };
+        switch (form) {
+        case 0: { nmtools_maybe<double> a = x, b = y; both_ways(a, b); break; }
+        case 1: { using E = nmtools_either<nm::none_t, double>; E a{x}, b{y}; both_ways(a, b); break; }
+        case 2: { using E = nmtools_either<double, nm::none_t>; E a{x}, b{y}; both_ways(a, b); break; }
+        case 3: { auto a = nmtools_tuple{x, 2.0}, b = nmtools_tuple{y, 2.0}; both_ways(a, b); break; }
+        case 4: { auto p = make_arr<double>(L{2}), q = make_arr<double>(L{2}); p.data_[0] = 2; q.data_[0] = 2; p.data_[1] = x; q.data_[1] = y; nmtools_maybe<decltype(p)> a = p, b = q; both_ways(a, b); break; }
+        default: { using E = nmtools_either<nmtools_list<int>, nmtools_array<double, 2>>; E a{nmtools_array<double, 2>{2.0, x}}, b{nmtools_array<double, 2>{2.0, y}}; both_ways(a, b); break; }
+        }
+        static const char* FN[6] = {"maybe<double>", "either<none,double> (right)", "either<double,none> (left)", "tuple<double,double>", "maybe<ndarray>", "either<list,array<double,2>> (right)"};
+        char what[160]; snprintf(what, sizeof what, "isclose(%s: 1 vs 1+%g, eps %g)", FN[form], delta, eps);
+        return decide(what, got, rev, want, true, (uint64_t)(form * 16 + pr) + 7000);
     }
     if (c.op == "closemix") {
         long ta = c.a[0][0], tb = c.a[0][1], form = c.a[1][0]; double va = mix_value(ta, c.a[2][0]), vb = mix_value(tb, c.a[2][1]), eps = MIX_EPS[c.a[3][0]];
